@@ -511,6 +511,12 @@ ITEMS = {
     "uone": ["#ifndef CONFIG_USER_ONLY", "#define B b14", "#else", "#define B b15", "#endif"],
     "oth": ["#ifdef TARGET_SOMETHING", "#define A (a5)", "#endif"],
     "othn": ["#ifndef TARGET_SOMETHING", "#define F(x) f6(x)", "#endif"],
+    # nested guards: a block inside a dropped block is dropped whatever its own guard says
+    "nestDK": ["#ifdef QEMU_GENERATE", "#ifndef CONFIG_USER_ONLY", "#define A (a6)", "#endif", "#endif"],
+    "nestDE": ["#ifdef QEMU_GENERATE", "#ifdef CONFIG_USER_ONLY", "#define B b16", "#else", "#define B b17", "#endif", "#endif"],
+    "nestKD": ["#ifndef QEMU_GENERATE", "#ifdef CONFIG_USER_ONLY", "#define A (a7)", "#else", "#define F(x) f7(x)", "#endif", "#define B b18", "#endif"],
+    "nestEK": ["#ifdef QEMU_GENERATE", "#define A (a8)", "#else", "#ifndef TARGET_SOMETHING", "#define A (a9)", "#endif", "#endif"],
+    "nest3": ["#ifndef TARGET_SOMETHING", "#ifdef CONFIG_USER_ONLY", "#ifndef QEMU_GENERATE", "#define B b19", "#endif", "#define F(x) f8(x)", "#endif", "#endif"],
     "cm1": ["/* #define A (c1) */"],
     "cm2": ["// #define A (c2)"],
     "cm3": ["/*", " * #define B c3", " */"],
@@ -570,7 +576,7 @@ def macro_pairs(k):
     out = []
     for items in itertools.product(ITEM_NAMES, repeat=k):
         for pl in PLACEMENTS:
-            if pl == "vec" and "qge" in items:
+            if pl == "vec" and ("qge" in items or "nestEK" in items):
                 continue
             if pl == "split" and k < 2:
                 continue
